@@ -19,9 +19,14 @@
                                                   error, undecodable component  EWalk
                         resolved.file_name()      none                          ENameExtract
                         name = --name, else file name .to_str()                 ENameDecode
+                        check_name(name): FilePath::is_normal_component, i.e.
+                          exactly one normal path component (not empty, not `.`,
+                          not `..`, no separator)                               ENameInvalid
                         output = --output, else torrent_path(input, name)
                                = input.join("..").lexiclean().join("{name}.torrent")
-           stdin input: name, output are required by clap                       EInternal
+           stdin input: name is required by clap                                EInternal
+                        check_name(name)                                        ENameInvalid
+                        output is required by clap                              EInternal
       6. output.resolve(env)   = lexiclean(dir.join(output)) for a path target
       7. piece length 0                                                          EZero
       8. not a power of two, lint denied                                         EUneven
@@ -38,7 +43,8 @@
            stdout:      write_all to stdout fails                               EStdout
      16. "Done" message, --show, --link (stdout), --open (opener)                EPost
 
-    The ONLY filesystem mutation is step 15. Everything before it reads.
+    The ONLY filesystem mutation is step 15. Everything before it reads. In particular the
+    name check of step 5 (both branches) precedes hashing and the write.
 
     Filesystem: association list from clean absolute paths (component lists, relative to
     the sandbox root []) to nodes; first match wins; [update] conses. System calls resolve
@@ -172,6 +178,13 @@ Definition torrent_path (c_input : ppath) (c_name : list N) : ppath :=
 Definition push_str (p : path) (s : list N) : path :=
   let q := parse_path s in if p_abs q then p_comps q else p ++ p_comps q.
 
+(** FilePath::is_normal_component (src/file_path.rs), used by CreateContent::check_name:
+    `Path::new(s).components()` yields exactly one component, it is `Normal`, and it is the whole
+    string. On Unix: s is not empty, not `.`, not `..`, and holds no `/`. *)
+Definition no_sep (s : list N) : bool := forallb (fun b => negb (b =? 47)) s.
+Definition name_ok (s : list N) : bool :=
+  negb (is_nil s) && negb (is_dot s) && negb (is_dotdot s) && no_sep s.
+
 (* ---------- configuration ---------- *)
 Inductive otarget := OStdout | OPath (p : list N).
 
@@ -195,7 +208,7 @@ Record cfg := {
 
 Inductive stage :=
   EClap | ETier | EPrivate | EGlob | EInput | ESymlinkRoot | EWalk | ENameExtract | ENameDecode
-| EInternal | EZero | EUneven | ESmall | EExists | ETooLarge | ERead | ESerialize | EOpen | EWriteIO
+| ENameInvalid | EInternal | EZero | EUneven | ESmall | EExists | ETooLarge | ERead | ESerialize | EOpen | EWriteIO
 | EStdout | EPost.
 Inductive outcome := CSuccess | CFail (e : stage).
 
@@ -225,6 +238,7 @@ Definition from_create (c : cfg) (fs : fsT) : stage + (list N * option ppath) :=
                  end) with
           | inl e => inl e
           | inr nm =>
+            if negb (name_ok nm) then inl ENameInvalid else
             inr (nm, match c_output c with
                      | Some OStdout => None
                      | Some (OPath t) => Some (parse_path t)
@@ -235,10 +249,15 @@ Definition from_create (c : cfg) (fs : fsT) : stage + (list N * option ppath) :=
       end
     end
   | None =>
-    match c_name c, c_output c with
-    | Some nm, Some OStdout => inr (nm, None)
-    | Some nm, Some (OPath t) => inr (nm, Some (parse_path t))
-    | _, _ => inl EInternal
+    match c_name c with
+    | None => inl EInternal
+    | Some nm =>
+      if negb (name_ok nm) then inl ENameInvalid else
+      match c_output c with
+      | Some OStdout => inr (nm, None)
+      | Some (OPath t) => inr (nm, Some (parse_path t))
+      | None => inl EInternal
+      end
     end
   end.
 
